@@ -230,27 +230,45 @@ def run(F, R, tier):
             if info.get("kind") != "layer" or id(info) in seen:
                 continue
             seen.add(id(info))
-            body = info["body"]
+            # helpers inlined (a `cached_or_parse(cell, || parse..)` helper included: its closure argument is applied),
+            # named intermediates substituted
+            body = H.beta(H.unlet(H.inline_helpers(F, info["body"], max_size=400)))
             # the read path: everything under the `else` of `if let Some(val) = setval`
             reps = [c for c in H.walk(body) if c.get("k") == "mcall" and c["m"] == "replace" and "inner" in H.render(c["recv"])]
-            lets = {}
-            for s in H.walk(body):
-                if s.get("k") == "let" and s.get("pat", {}).get("k") == "bind" and "init" in s:
-                    lets[s["pat"]["name"]] = s["init"]
+            # where a pattern-bound local gets its value from: the scrutinee of the match / if-let that binds it
+            bindsrc = {}
+            for mm in H.walk(body):
+                if mm.get("k") == "match":
+                    for a_ in mm["arms"]:
+                        for y in H.walk(a_["pat"]):
+                            if y.get("k") == "bind":
+                                bindsrc[y["id"]] = mm["scrut"]
+                if mm.get("k") == "let" and mm.get("init") is not None and mm.get("pat", {}).get("k") != "bind":
+                    for y in H.walk(mm["pat"]):
+                        if y.get("k") == "bind":
+                            bindsrc[y["id"]] = mm["init"]
+            setval_ids = {y["id"] for y in H.walk(info["body"]) if y.get("k") == "bind" and y.get("name") == "val"}
             for c in reps:
                 arg = H.strip(c["args"][0])
                 src = H.render(arg)
-                if src == "v1::Some(val.clone())":
+                if any(H.local_id(x) in setval_ids for x in H.walk(arg)):
                     continue  # explicit assignment by the script, not a read
                 n_cache += 1
-                m = re.match(r"v1::Some\((\w+)\.clone\(\)\)$", src)
                 variants = set()
-                if m and m.group(1) in lets:
-                    init = lets[m.group(1)]
-                    for leaf in H.value_leaves(init):
-                        for x in H.walk(leaf):
-                            if x.get("k") == "call" and x.get("ctor", "").startswith("object::Object::"):
-                                variants.add(H.last(x["ctor"]))
+
+                def collect(e, depth=0):
+                    for x in H.walk(e):
+                        if x.get("k") == "call" and (x.get("ctor") or "").startswith("object::Object::"):
+                            variants.add(H.last(x["ctor"]))
+                        lid = H.local_id(x) if x.get("k") == "path" else None
+                        if lid in bindsrc and depth < 3:
+                            collect(bindsrc[lid], depth + 1)
+                        elif lid in lets_ and depth < 3:
+                            # a named value whose initialiser leaves the function on some branches: the values it can hold
+                            for leaf in H.value_leaves(lets_[lid]):
+                                collect(leaf, depth + 1)
+                lets_ = {x["pat"]["id"]: x["init"] for x in H.walk(body) if x.get("k") == "let" and x.get("pat", {}).get("k") == "bind" and x.get("init") is not None}
+                collect(arg)
                 ok = bool(variants) and variants <= layer_variants
                 R.ob("cached-inner-complete", "%s.%s" % (H.last(spec["exec"]), v), ok,
                      "a read stores %s into .inner: variants %s (error/null objects serialise to zero bytes: %s)"
